@@ -114,7 +114,9 @@ class bc_vector_7 {
         for (std::uint32_t j = 0; j < m_ranks.size(); ++j) {
             m_ranks[j].build(ranks[j]);
         }
-        m_links = compact_vector(links);
+        if (!links.empty()) {
+            m_links = compact_vector(links);
+        }
         m_leaves = bit_vector(leaves, true, false);
     }
 
